@@ -1319,7 +1319,8 @@ class Explorer:
                 st.locallen.pop(t.id, None)
         elif isinstance(t, ast.Attribute):
             txt = ast.unparse(t)
-            self.emit(st, 'setattr', node, target=txt, attr=t.attr, on_self=self_attr(t) is not None, value=val, aug=aug, node=node)
+            self.emit(st, 'setattr', node, target=txt, attr=t.attr, on_self=self_attr(t) is not None, value=val, aug=aug, node=node,
+                      obj_val=self.pure_value(t.value, st))
             self.invalidate(st, txt)
             if self_attr(t) is not None and self.track_attrs:
                 if val[0] == 'list':
